@@ -87,6 +87,18 @@ pub fn run(ctx: &Ctx) {
     });
   }
   ctx.subspace(&format!("civil dates of {} years ({} dates) x 5 routes (lunar-day pillar, sexagenary-day pillar, three weekday routes)", years.len(), n), done, n);
+  // quick only: every 11th day of the whole range (11 is coprime to 7 and 60, and shorter than any lunation), so that a
+  // lunar month whose first day number is wrong anywhere in 0001..9999 shows up without sweeping all 3.65 M dates
+  if ctx.quick() {
+    let total = civ.len();
+    let cnt = (total + 10) / 11;
+    let done = par_chunks(ctx, 0, cnt, 512, |x, y, l| {
+      for k in x..y {
+        check_day(ctx, &civ, k * 11, first_term_day, l);
+      }
+    });
+    ctx.subspace(&format!("every 11th civil date of 0001-01-01..9999-12-31 ({} dates) x 5 routes", cnt), done, cnt as u64);
+  }
   for d in [(1582, 10, 4), (1582, 10, 15), (2000, 1, 1), (1, 1, 1)] {
     let o = civ.ord(d.0, d.1, d.2).unwrap();
     let got = guard(|| {
